@@ -113,6 +113,11 @@ fn gen_family(fam: &str, seed: u64, n: usize, out: &mut impl Write) {
                 writeln!(out, "{{\"pkt\":{}}}", jbytes(&p)).unwrap();
             }
         }
+        "beyond64k" => {
+            for p in gen::beyond_64k_packets() {
+                writeln!(out, "{{\"pkt\":{}}}", jbytes(&p)).unwrap();
+            }
+        }
         "compressfam" => {
             for p in gen::compress_families() {
                 writeln!(out, "{{\"pkt\":{}}}", jbytes(&p)).unwrap();
